@@ -146,6 +146,7 @@ class StateMachine(metaclass=StateMachineMetaclass):
 
         self._register_callbacks(list(listeners.keys()))
         self._engine = self._get_engine(rtc)
+        self._engine.start()
 
     def _get_initial_state(self):
         initial_state_value = (
